@@ -269,13 +269,9 @@ fn emit_wrapped_loop_choice_body(
             branch_nodes.extend(choice.body[1..].iter().cloned());
             body_already_emitted = true;
         } else if !body_already_emitted {
-            let body_is_terminal_divert = matches!(
-                choice.body.as_slice(),
-                [Node::Divert(d)] if d.target == "END" || d.target == "DONE"
-            );
-            if !body_is_terminal_divert {
-                branch_nodes.push(Node::Newline);
-            }
+            // The choice line ends in a line break, also when all that follows on
+            // the next line is `-> END`.
+            branch_nodes.push(Node::Newline);
         }
     } else if choice.has_choice_only_content
         && !choice.has_start_content
